@@ -117,6 +117,7 @@ fn observe(e: &str, text: &str) -> Option<Result<Desc, ()>> {
             match serde_json::from_str::<$ty>(text) {
                 Err(_) => Err(()),
                 Ok($ev) => {
+                    #[allow(unused_mut)]
                     let mut $d = Desc { ctors: ctor_chain(&$ev), event_type: $ev.event_type().to_string(), ..Default::default() };
                     $body
                     Ok($d)
@@ -228,6 +229,8 @@ struct ContentObs {
     event_type: String,
     /// `None`: serialisation refused (the `_Custom` variant is deserialise-only by design)
     text: Option<String>,
+    /// `Debug` rendering of the typed value (everything the value holds)
+    debug: String,
 }
 
 fn observe_content(kind: &str, ty: &str, text: &str) -> Option<Result<ContentObs, ()>> {
@@ -243,7 +246,7 @@ fn observe_content(kind: &str, ty: &str, text: &str) -> Option<Result<ContentObs
                     let dbg = format!("{c:?}");
                     let end = dbg.find(|ch: char| !(ch.is_alphanumeric() || ch == '_')).unwrap_or(dbg.len());
                     let variant = if &dbg[..end] == "_Custom" { "custom".to_owned() } else { dbg[..end].to_owned() };
-                    Ok(ContentObs { variant, event_type: c.event_type().to_string(), text: serde_json::to_string(&c).ok() })
+                    Ok(ContentObs { variant, event_type: c.event_type().to_string(), text: serde_json::to_string(&c).ok(), debug: dbg })
                 }
             }
         }};
@@ -676,7 +679,12 @@ fn run_content(req: &str, kind: &str, expect_ok: bool, ty: &str, content: &J) ->
                         // fixpoint on its own output
                         match observe_content(kind, ty, s1) {
                             Some(Ok(c2)) => match &c2.text {
-                                Some(s2) if s2 == s1 => {}
+                                Some(s2) if s2 == s1 => {
+                                    // nothing the typed value holds is lost or altered by writing it out
+                                    if c2.debug != c.debug {
+                                        t3.push(format!("serialising loses or alters data: re-read value differs from the first ({s1})"));
+                                    }
+                                }
                                 Some(s2) => t3.push(format!("not a fixpoint: {s1} -> {s2}")),
                                 None => t3.push("re-deserialised content no longer serialises".into()),
                             },
@@ -702,12 +710,12 @@ fn run_content(req: &str, kind: &str, expect_ok: bool, ty: &str, content: &J) ->
                                 if let J::Obj(es) = content {
                                     let mut es = es.clone();
                                     let pos = rng.below(es.len() + 1);
-                                    es.insert(pos, ("zz.extra".to_owned(), extra_value(&mut rng)));
+                                    es.insert(pos, ("zz.oracle.extra".to_owned(), extra_value(&mut rng)));
                                     match observe_content(kind, ty, &jt::to_text(&J::Obj(es))) {
                                         Some(Ok(c4)) => {
                                             let same = match c4.text.as_deref().and_then(jt::parse_text) {
                                                 Some(mut o4) => {
-                                                    o4.remove("zz.extra");
+                                                    o4.remove("zz.oracle.extra");
                                                     o4 == out
                                                 }
                                                 None => false,
@@ -768,7 +776,13 @@ fn run_getfield(text: &str, field: &str, tree: &J) -> Outcome {
                 _ => t3.push(format!("get_field disagrees with a full serde_json::Value parse on {field:?}")),
             }
             match jt::parse_text(v.get()) {
-                Some(j) => format!("some {}", jt::toks(&j)),
+                Some(j) => {
+                    // the harness' own reading of "full parse": maps, a later duplicate replaces
+                    if tree.normalized().get(field) != Some(&j.normalized()) {
+                        t3.push("get_field is not the entry a map-building parse keeps".into());
+                    }
+                    format!("some {}", jt::toks(&j))
+                }
                 None => "err".to_owned(),
             }
         }
